@@ -1,6 +1,7 @@
 import Lemmas.PermEquiv
 import Lemmas.HelpPerm
 import Lemmas.PermEquivComp
+import Lemmas.CmdKeys
 import Props.C11
 import Props.C08
 /-!
@@ -110,14 +111,24 @@ theorem parseUser_perm (P : Prog) (N' : List Node) (args : List Str) (h : NPerm 
 
 /-- **The help text is independent of the iteration order**: over the node list with every option
 table and command table permuted, `Help()` / the help option / the help command render the same
-bytes for every level and every choice of sections.  (The listed sub-commands have distinct names —
-a command's name is its key in the parent's table.) -/
+bytes for every level and every choice of sections.  (Hypothesis: the level's command table has distinct
+keys — it is a Go map; `help_text_order_independent_built` discharges it for every accepted definition.) -/
 theorem help_text_order_independent (P : Prog) (N' : List Node) (h : NPerm P N')
     (hlen : N'.length = P.nodes.length) (n : Nat) (hd : CmdNamesDistinct P n) (secs : List Section) :
     helpOutput ext { P with nodes := N' } n secs = helpOutput ext P n secs :=
   helpOutput_w ext P N' h hlen n hd secs
 
 example : CmdNamesDistinct Demo.prog 0 := by unfold CmdNamesDistinct; decide
+
+/-- … and for **every program accepted by the definition layer** — whatever the script did, including `Self`
+giving several commands the same display name (the defect repaired in 68a1c64: the list is keyed by the name a
+command is registered under, and `AddChildCommand` refuses duplicates) — the help text of every level does not
+depend on the iteration order, with no further hypothesis. -/
+theorem help_text_order_independent_built (env : Env) (root : Str) (script : List DefOp) (st : BState)
+    (hb : buildB ext env root script = .ok st) (N' : List Node) (h : NPerm st.P N')
+    (hlen : N'.length = st.P.nodes.length) (n : Nat) (secs : List Section) :
+    helpOutput ext { st.P with nodes := N' } n secs = helpOutput ext st.P n secs :=
+  helpOutput_w ext st.P N' h hlen n (built_cmd_keys_distinct ext env root script st hb n) secs
 
 /-- **The completion list is independent of the iteration order**: the whole `COMP_LINE` branch of
 `Parse` — walking the earlier words, then producing the candidates for the last one, including the
